@@ -236,6 +236,18 @@ def limit_cases():
             E(b'\x61' * max(0, 200 + d - nk) + body, tag='opcount-ms')
             E(b'\x61' * max(0, 200 + d - nk) + body, flags=['NULLDUMMY'], tag='opcount-ms-nd')
             E(b'\x61' * max(0, 200 + d - nk) + b'\x51\x00' + keys + nkp + b'\xaf\x51', flags=['NULLDUMMY'], tag='opcount-msv-nd')
+        for nk in (1, 2, 3, 16, 19, 20):
+            # the same limit reached through multisigs that carry signatures (keys are tried, and still count in full)
+            keys = b''.join(P(b'\x02' + bytes([k + 1]) * 32) for k in range(nk))
+            nkp = bytes([0x50 + nk]) if nk <= 16 else P(bytes([nk]))
+            for ns in sorted({1, min(2, nk), nk}):
+                sigs = b''.join(P(b'\x30\x06\x02\x01' + bytes([s_ + 1]) + b'\x02\x01\x01\x01') for s_ in range(ns))
+                body = b'\x00' + sigs + bytes([0x50 + ns]) + keys + nkp + b'\xae'
+                E(b'\x61' * max(0, 200 + d - nk) + body, tag='opcount-ms-sigs')
+                E(b'\x61' * max(0, 199 + d - nk) + body + b'\x75\x51', flags=['NULLDUMMY'], tag='opcount-ms-sigs-nd')
+            rep = (b'\x00' + P(b'\x30\x06\x02\x01\x01\x02\x01\x01\x01') + b'\x51' + keys + nkp + b'\xae\x75')
+            k = max(1, (201 + d) // (nk + 2))
+            E(rep * k + b'\x61' * max(0, 201 + d - k * (nk + 2)) + b'\x51', tag='opcount-ms-repeated')
         data = b'z' * (520 + d)
         E(P(data), tag='pushsize')
         E(b'\x00\x63' + P(data) + b'\x68\x51', tag='pushsize-dead')
